@@ -79,7 +79,8 @@ func tcPrelude(docs []map[string]any) {
 // project directory instead of being the main file. Including equals pasting (C06), so every oracle of the harness
 // applies unchanged. Documents that carry a project `name` or include something themselves are left alone.
 func tcRoute(docs []map[string]any) []map[string]any {
-	if vrtParam("ROUTE", 0) != 1 || len(docs) != 1 {
+	route := vrtParam("ROUTE", 0)
+	if route == 0 || len(docs) != 1 {
 		return docs
 	}
 	d := docs[0]
@@ -91,6 +92,13 @@ func tcRoute(docs []map[string]any) []map[string]any {
 	}
 	tcRouteN++
 	name := "zz-routed-" + string(rune('a'+tcRouteN%26)) + ".yaml"
+	if route == 2 {
+		// two levels deep, each level in a directory of its own: relative paths of the document then resolve
+		// against the innermost directory, so only comparisons between documents routed alike make sense
+		vrtYamlFile(vrtRoot()+"/w/zz-l1/zz-l2/"+name, genCopy(d).(map[string]any))
+		vrtYamlFile(vrtRoot()+"/w/zz-l1/mid-"+name, map[string]any{"include": []any{"zz-l2/" + name}})
+		return []map[string]any{{"include": []any{"zz-l1/mid-" + name}}}
+	}
 	vrtYamlFile(vrtRoot()+"/w/"+name, genCopy(d).(map[string]any))
 	return []map[string]any{{"include": []any{name}}}
 }
